@@ -459,6 +459,16 @@ def special_files(rng: random.Random) -> List[Tuple[str, bytes]]:
         frs = [ase.Frame(chunks=[ase.LayerChunk(), ase.CelChunk(layer=0, w=1, h=1, pixels=b"\1\2\3\4", ctype_cel=0)])]
         frs += [ase.Frame(chunks=[ase.CelChunk(layer=0, ctype_cel=1, linked=k - 1)]) for k in range(1, n)]
         out.append(("link_chain_%d" % n, ase.serialize(ase.Sprite(width=1, height=1, frames=frs))))
+    # two linked cels that link to EACH OTHER (refused: a link must lead to stored pixels; following links without a visited set never ends)
+    frs = [ase.Frame(chunks=[ase.LayerChunk(), ase.CelChunk(layer=0, w=1, h=1, pixels=b"\1\2\3\4", ctype_cel=0)]),
+           ase.Frame(chunks=[ase.CelChunk(layer=0, ctype_cel=1, linked=2)]), ase.Frame(chunks=[ase.CelChunk(layer=0, ctype_cel=1, linked=1)]),
+           ase.Frame(chunks=[ase.CelChunk(layer=0, ctype_cel=1, linked=3)])]
+    out.append(("link_cycle", ase.serialize(ase.Sprite(width=1, height=1, frames=frs))))
+    # a tileset WITHOUT embedded pixels whose declared tile count x width x height passes 2^32 (refused for the missing pixels)
+    for fl in (0, 1, 4):
+        out.append(("pixelless_tileset_overflow_%d" % fl, ase.serialize(ase.Sprite(width=4, height=4, frames=[ase.Frame(chunks=[
+            ase.TilesetChunk(id=0, flags=fl, ext=(1, 1) if fl & 1 else None, tile_count=0x01000000, tile_w=16, tile_h=16, pixels=b""),
+            ase.LayerChunk(ltype=2, tileset=0)])]))))
     # a stored cel of more than a megabyte followed by other chunks
     big = bytes((i * 7) & 255 for i in range(600 * 500 * 4))
     out.append(("big_cel_then_chunks", ase.serialize(ase.Sprite(width=600, height=500, frames=[ase.Frame(chunks=[
@@ -1644,6 +1654,7 @@ def check_C14(tier: str, seed: int) -> int:
                 cases.append(("%s bufreader %d" % (path, cap), name, "other", ()))
             cases.append(("%s cursor" % path, name, "other", ()))
             cases.append(("%s file" % path, name, "other", ()))
+            cases.append(("%s pipe" % path, name, "pipe", ()))       # read_file on the read end of a pipe (implementation only)
             cases.append(("%s chain %d" % (path, n // 2), name, "other", ()))
             step = 1 if n <= 400 or tier != "quick" else 3
             for off in list(range(0, n + 2, step)):
@@ -1698,7 +1709,7 @@ def check_C14(tier: str, seed: int) -> int:
             if outcome_class(io) == "panic":
                 direct_fail.append({"what": "panic / lost worker under a reader schedule", "case": line, "comments": bi[1][:3] if bi else None})
                 continue
-            if kind in ("one", "chunks", "intr", "other"):
+            if kind in ("one", "chunks", "intr", "other", "pipe"):
                 if bi[0] != pi[0]:
                     direct_fail.append({"what": "result depends on how the reader delivers the bytes", "case": line,
                                         "got": bi[0][:3], "plain": pi[0][:3]})
@@ -1718,7 +1729,7 @@ def check_C14(tier: str, seed: int) -> int:
                 if io == 0 and outcome(pi) != 0:
                     direct_fail.append({"what": "a sprite was returned although the plain load fails", "case": line})
             # model vs implementation: same outcome, same error kind, same observation hash
-            if bi is None or bm is None or bi[0] != bm[0]:
+            if kind != "pipe" and (bi is None or bm is None or bi[0] != bm[0]):
                 if not (1 <= io <= 3 and 1 <= outcome(bm) <= 3):
                     corr_fail.append({"case": line, "impl": bi[0][:3] if bi else None, "model": bm[0][:3] if bm else None})
         proof_level_coverage(v, ob, {
@@ -1768,6 +1779,10 @@ def forest_sprite(levels: List[int], flags: List[int], rng: random.Random, late:
     H = max(1, -(-n // W))
     for i in range(n):
         group = i + 1 < n and levels[i + 1] > levels[i]
+        # (a layer with deeper layers behind it is their parent whatever its type: one in four of them is an IMAGE layer, with a cel)
+        plain_parent = group and rng.random() < 0.25
+        if plain_parent:
+            group = False
         layers.append({"flags": flags[i], "ltype": 1 if group else 0, "level": levels[i], "blend": rng.choice([0, 0, 0, 1, 2, 16, 18]), "opacity": 255, "name": "L%d" % i,
                        "tileset": 0, "ud": None, "default_w": 0, "default_h": 0})
         if not group:
@@ -1982,8 +1997,15 @@ def check_C09(tier: str, seed: int) -> int:
             ch["late_layers"] = late
             ch["shuffle_cels"] = False
             cases.append((s, gen.encode(s, ch, rng)))
-        # deep chains on a 2 MiB thread, hidden root / visible root
-        for depth, root in ((20000, 1), (20000, 0), (65535 if tier != "quick" else 30000, 1)):
+        # level sequences that are NOT forests: levels jump by more than one (the loader only asks for an earlier layer of a lower level),
+        # up to the top of the 16-bit range
+        for _ in range(60 if tier == "quick" else 600):
+            n = rng.randint(2, 14)
+            lv = [0] + [rng.choice([0, 1, 2, 3, 255, 256, 32767, 32768, 65534, 65535]) for _ in range(n - 1)]
+            s = forest_sprite(lv, [rng.choice([1, 1, 0]) | (rng.randrange(64) << 1) for _ in range(n)], rng)
+            cases.append((s, gen.encode(s, gen.random_choices(rng) if len(cases) % 2 else None, rng)))
+        # deep chains on a 2 MiB thread, hidden root / visible root (thorough: 65536 layers, the last one at level 65535)
+        for depth, root in ((20000, 1), (20000, 0), (65536 if tier != "quick" else 30000, 1)):
             lv = list(range(depth))
             s = forest_sprite(lv, [root] + [1] * (depth - 1), rng)
             cases.append((s, gen.encode(s, None, rng)))
@@ -3465,6 +3487,9 @@ def c12_inputs(rng: random.Random, tier: str) -> List[Tuple[str, bytes]]:
             for vv in sorted({cur * 2 + 1, 255, 65535, 1 << 24, (1 << 31) - 1, top - 1, top}):
                 if vv > cur and vv <= top:
                     out.append(("%s:%s@%d:%d->%d" % (name, f.name, f.offset, cur, vv), ase.set_field(data, f, vv)))
+    # 8000 layers that all declare child level 65000 behind one group (legal for the loader: some earlier layer has a lower level)
+    out.append(("8000 layers at child level 65000", ase.serialize(ase.Sprite(width=1, height=1, frames=[ase.Frame(chunks=[
+        ase.LayerChunk(ltype=1, level=0, name="")] + [ase.LayerChunk(level=65000, name="") for _ in range(8000)])]))))
     # a tag whose frame range and repeat count are both large but well inside their ranges (a playback list would have 30 million entries)
     out.append(("tag 0..29999 repeated 1000 times", ase.serialize(ase.Sprite(width=1, height=1, frames=[ase.Frame(chunks=[
         ase.TagsChunk(tags=[ase.Tag(name="t", from_=0, to=29999, repeat=1000), ase.Tag(name="u", from_=5, to=65534, repeat=65535, direction=2)])])]))))
